@@ -122,7 +122,7 @@ Section Shape.
 
   Lemma prepare_shape :
     dim = g_dim g /\
-    levels vmin_o vmax_o st = Some (p_vmin p, p_vmax p) /\
+    levels vmin_o vmax_o st = (p_vmin p, p_vmax p) /\
     p_drop p = q /\ p_dim p = dim /\ p_width p = w /\
     p_flat p = d_pos q ++ d_rad q :: w :: d_amp q /\
     p_free p = fm ++ repeat true (S (S modes)) /\
@@ -149,7 +149,7 @@ Section Shape.
     rewrite (select_all_true (S (S modes)) (Fin 0 :: Fin 0 :: repeat (Fin (-1)) modes)) by (simpl; rewrite repeat_length; reflexivity).
     rewrite (select_all_true (S (S modes)) (PosInf :: PosInf :: repeat (Fin 1) modes)) by (simpl; rewrite repeat_length; reflexivity).
     fold b0. fold b1.
-    destruct (levels vmin_o vmax_o st) as [[vmin vmax]|] eqn:El; [|discriminate].
+    destruct (levels vmin_o vmax_o st) as [vmin vmax] eqn:El.
     unfold start_adjust, start_plain, bounds_adjust. unfold flat.
     rewrite (select_app fm (repeat true (S (S modes))) (d_pos q) (d_rad q :: w :: d_amp q)) by exact Hfm.
     rewrite (select_all_true (S (S modes)) (d_rad q :: w :: d_amp q)) by reflexivity.
